@@ -114,6 +114,9 @@ pub struct Scenario {
     pub decisions: Option<Vec<String>>,
     #[serde(default)]
     pub max_steps: Option<usize>,
+    /// tasks that are polled only when nothing else can run (builds up the deepest possible backlog)
+    #[serde(default)]
+    pub starve: Vec<String>,
 }
 
 // ---------------------------------------------------------------------------------------------
@@ -1108,7 +1111,13 @@ pub fn run(sc: &Scenario) -> (Vec<String>, Vec<String>) {
     let mut unavailable = false;
     loop {
         let opts = ex.options(sc.horizon, sc.idle_only, cancels);
-        let non_cancel: Vec<&Decision> = opts.iter().filter(|d| !matches!(d, Decision::Cancel(_))).collect();
+        let mut non_cancel: Vec<&Decision> = opts.iter().filter(|d| !matches!(d, Decision::Cancel(_))).collect();
+        if !sc.starve.is_empty() && script.is_none() {
+            let fed: Vec<&Decision> = non_cancel.iter().copied().filter(|d| !matches!(d, Decision::Pick(t) if sc.starve.contains(t))).collect();
+            if !fed.is_empty() {
+                non_cancel = fed;
+            }
+        }
         if non_cancel.is_empty() || steps >= max_steps {
             break;
         }
